@@ -10,7 +10,7 @@ SEED = "/verif/seeded"
 TREE = os.environ.get("SEEDED_TREE", "/repo")
 COPY = os.environ.get("SEEDED_COPY", "/tmp/vseed")
 VDIR = "/verif" if TREE == "/repo" else COPY
-EXTRA = {"C09-b2": ["C14"], "C10-a3": ["C17"], "C10-w3-1": ["C17"], "C14-w8-3": ["C10"], "C10-w10-1": ["C09"], "C10-w11-1": ["C09"], "C14-w11-2": ["C08"], "C09-w12-1": ["C16"], "C17-w12-3": ["C14"], "C14-w14-2": ["C08"]}  # detected by a neighbouring property's check
+EXTRA = {"C09-b2": ["C14"], "C10-a3": ["C17"], "C10-w3-1": ["C17"], "C14-w8-3": ["C10"], "C10-w10-1": ["C09"], "C10-w11-1": ["C09"], "C14-w11-2": ["C08"], "C09-w12-1": ["C16"], "C17-w12-3": ["C14"], "C14-w14-2": ["C08"], "C09-w15-1": ["C16"], "C14-w15-2": ["C10"]}  # detected by a neighbouring property's check
 TIER = {"C10-w2-3": "heavy", "C10-w3-3": "heavy", "C09-w5-3": "heavy", "C09-w7-3": "heavy", "C10-w7-3": "heavy", "C10-w8-1": "heavy", "C10-w10-1": "heavy"}  # needs a scenario that only the thorough tier draws ("heavy" = that scenario alone, 80 runs)
 def sh(cmd, cwd=None, timeout=3600):
     cwd = cwd or VDIR
